@@ -207,6 +207,18 @@ def run(chk):
         chk.ok("C20.order", ps, "pre_shutdown() asks every connection to close after its current request")
     else:
         chk.violation("C20.order", ps, "for conn in self._connections: conn.close()", "", "idle keep-alive connections are not closed at shutdown")
+    # ---- drain: a request that is being handled keeps receiving its input while the server waits for it ---------------------------
+    dr = repo.func(PROTO, "RequestHandler.data_received")
+    drops = [r for r in ast.walk(dr.node) if isinstance(r, ast.Return) and r.value is None and any(t in norm.fmt_cnf(PC.pc(r)) for t in ("self._close", "self._force_close"))]
+    if not drops:
+        chk.ok("C20.drain", dr, "data_received() never discards input because of a closing flag")
+    for r in drops:
+        if PC.has_lit(PC.pc(r), "self._request_in_progress", False) is not None:
+            chk.ok("C20.drain", r, "input is discarded on a closing connection only while no request is being handled")
+        else:
+            chk.violation("C20.drain", r, "return", "!(self._request_in_progress)",
+                          "pre_shutdown()'s close() and shutdown()'s _force_close make data_received() discard all input, including the rest of the body of the request that is being handled: a handler that is still reading its request body cannot complete during the shutdown timeout and is cancelled instead",
+                          path_condition=norm.fmt_cnf(PC.pc(r)))
     # ---- idle ---------------------------------------------------------------------------------------------------------------------
     rc = repo.func(PROTO, "RequestHandler.close")
     if K.stmts(rc, "self._close = True") and K.exprs(rc, "self._waiter.cancel()"):
